@@ -33,7 +33,7 @@ def corpus(bits8, vartrail, L):
     G("KW", [(R.string(k),) for k in kws] + [(ident,), (R.plus(R.cset(b"0123456789")),), (R.plus(R.cset(b" \n")),)], b"ifn e\n0_", maxlen=3)
     G("BACKUP", [(R.cat(A, B),), (R.cat(A, B, B, B),), (A,), (B,)], b"ab\n")
     G("ANCHOR", [(R.plus(A), dict(bol=True)), (R.cat(A, B), dict(eol=True)), (A,), (B,), (NL,)], b"ab\n")
-    G("FIXTRAIL", [(R.plus(A), dict(trail=B)), (R.cat(A, B), dict(trail=R.cat(A, NL))), (A,), (B,), (NL,)], b"ab\n")
+    G("FIXTRAIL", [(R.plus(A), dict(trail=B)), (R.cat(A, B), dict(trail=R.cat(A, NL))), (R.cat(B, B), dict(trail=NL)), (A,), (B,), (NL,)], b"ab\n")
     if vartrail:
         G("VARTRAIL", [(R.plus(A), dict(trail=R.cat(R.plus(B), NL))), (A,), (B,), (NL,)], b"ab\n")
     G("CLASSES", [(R.plus(R.cset(b"abc")),), (('set', frozenset(R.ALL - set(b"abc\n")) if bits8 else frozenset(set(range(128)) - set(b"abc\n"))),),
@@ -95,7 +95,13 @@ def job_for(pt, L):
         opts.append('tables-file="s.tables"')
         cdefs.append('VF_TABLES_FILE="s.tables"')
     tag = "%s%s/%d/%s/%s/%s/%s" % (tb, "a" if al else "", bits, mode, "array" if arr else "pointer", api, "file" if tf else "code")
-    return dict(groups=gs, options=opts, api=api, cdefs=cdefs, flex_args=fa, knobs={"VF_BUFSIZES": "0,3" if full else "0", "VF_READ_ONE": 2}, tag=tag,   # variable trailing context cannot grow its buffer
+    knobs = {"VF_BUFSIZES": "0,3" if full else "0", "VF_READ_ONE": 2}
+    if al:
+        # the aligned half of the lattice also keeps a line count: an action side effect that must not depend on the point either
+        opts.append("yylineno")
+        knobs["VF_CHECK_LINENO"] = 1
+        tag += "/yylineno"
+    return dict(groups=gs, options=opts, api=api, cdefs=cdefs, flex_args=fa, knobs=knobs, tag=tag,   # variable trailing context cannot grow its buffer
                 point=pt, driver_args=["-H", "400"])
 
 
